@@ -208,7 +208,11 @@ def directed_author(rng, cfg, scope):
             args.insert(rng.randint(0, len(args)), ("scope=" + rng.choice(["s1", "s2"])).encode())   # the client claims a scope itself
         if rng.random() < 0.2:
             args.append(rng.choice([b"protocol=ip", b"protocol*ip", b"cmd*", b"priv-lvl=1"]))
-        return author(u["name"], [list(a) for a in args])
+        if rng.random() < 0.08:
+            # many distinct arguments that all name the service (as attribute value): the reply must still be one packet
+            n = rng.choice([40, 100, 128, 200, 250 - len(args)])
+            args += [("k%d%s%s" % (i, rng.choice("=*"), s["name"].strip())).encode() for i in range(n)]
+        return author(u["name"], [list(a) for a in args][:255])
     return author(u["name"], [list(b"service=shell"), list(b"cmd=show")])
 
 
@@ -317,7 +321,7 @@ def admission_scenario(rng, idx, tag):
 def scenario(rng, idx, prop, tag):
     if prop == "C13":
         return admission_scenario(rng, idx, tag)
-    cfg = policy_cfg(rng, tag) if prop in ("C11",) or (prop in ("C07", "C14") and rng.random() < 0.5) else base_cfg(rng, tag)
+    cfg = policy_cfg(rng, tag) if prop in ("C11",) or (prop in ("C07", "C14", "C09", "C06") and rng.random() < 0.5) else base_cfg(rng, tag)
     scope = "s1" if rng.random() < 0.8 else "s2"
     addr = rng.choice(ADDR[scope])
     nsess = {"C09": rng.choice([2, 2, 3]), "C10": rng.choice([1, 1, 2]), "C18": rng.choice([1, 2])}.get(prop, rng.choice([1, 2, 3]))
@@ -343,6 +347,12 @@ def scenario(rng, idx, prop, tag):
         if rng.random() < 0.1:
             fl |= 4
         sessions.append(session_steps(1, s, script, fl=fl, ty=ty))
+        if script and script[0][0]["k"] == "author" and len(sessions) < 4 and rng.random() < 0.4:
+            others = [u["name"] for u in cfg["users"] if scope in u["scopes"] and u["name"] != script[0][0]["user"]]
+            if others:
+                p2 = copy.deepcopy(script[0][0])
+                p2["user"] = rng.choice(others)
+                sessions.append(session_steps(1, len(sessions), [(p2, script[0][1], [])], fl=fl, ty=ty))
     conns = [{"c": 1, "addr": addr}]
     steps = interleave(rng, sessions)
     if prop == "C09" and rng.random() < 0.35:
